@@ -354,6 +354,20 @@ def oracle_ss(case, R):
         if method == "tustin":
             R.check(mdl_.prewarp is not None and float(mdl_.prewarp) == float(pw), "conversion_record_prewarp",
                     f"{nm_}: prewarp={mdl_.prewarp!r}, converted with {pw!r}")
+    # a converted model is a model of its own: editing its matrices in place leaves the model it came from alone
+    # (every branch of c2d / d2c copies what it carries over)
+    srcs = {nm_: np.array(getattr(S, nm_), copy=True) for nm_ in "ABCD"}
+    zsrc = {nm_: np.array(getattr(Z, nm_), copy=True) for nm_ in "ABCD"}
+    Zs = S.c2d(h, method=method, prewarp=pw)
+    Sd = Z.d2c(method=method, prewarp=pw)
+    for nm_ in "ABCD":
+        getattr(Zs, nm_)[...] = 123.0
+        getattr(Sd, nm_)[...] = -9.0
+    for nm_ in "ABCD":
+        R.check(np.array_equal(getattr(S, nm_), srcs[nm_]), "c2d_result_aliases_source_model",
+                f"method={method}: editing {nm_} of the discrete model changed the continuous one")
+        R.check(np.array_equal(getattr(Z, nm_), zsrc[nm_]), "d2c_result_aliases_source_model",
+                f"method={method}: editing {nm_} of the continuous model changed the discrete one")
     S3 = Z.d2c(method=Z.method, prewarp=Z.prewarp)
     Z3 = S2.c2d(h, method=S2.method, prewarp=S2.prewarp)
     for nm in "ABCD":
